@@ -18,6 +18,11 @@ Proof. exact reloader_leaves_when_events_are_over. Qed.
 Theorem C15_code_watcher_lets_go_when_nobody_listens : handle_event_frame_wf Gen.Watcher.handle_event = true.
 Proof. exact handle_event_frame. Qed.
 
+(* ... which every send tells it, empty batches included *)
+Theorem C15_code_senders_learn_about_a_gone_reloader :
+  send_multiple_wf EventSender_send_multiple = true /\ send_wf EventSender_send = true.
+Proof. exact senders_learn_about_a_gone_reloader. Qed.
+
 (* idle: both inboxes empty and connected => the thread blocks and consumes nothing *)
 Theorem C15_idle_blocks : forall x p s,
   st s <> Exited -> qlen (cmq s) = 0 -> connected (cmq s) = true ->
